@@ -252,6 +252,19 @@ pub fn gen_recipe(r: &mut Rng) -> Recipe {
         };
         vars.push((name.to_string(), v));
     }
+    // near-duplicate collections: `l2` as long as `l`, equal or differing in one element (distinct buffers)
+    if r.chance(1, 2) {
+        let l = vars.iter().find(|(n, _)| n == "l").map(|(_, v)| v.clone());
+        if let Some(VSpec::List(mut xs)) = l {
+            if !xs.is_empty() && r.chance(1, 2) {
+                let at = r.usize(xs.len());
+                xs[at] = VSpec::Int(r.range(10, 99));
+            }
+            if let Some(slot) = vars.iter_mut().find(|(n, _)| n == "l2") {
+                slot.1 = VSpec::List(xs);
+            }
+        }
+    }
     Recipe {
         shared,
         vars,
@@ -276,7 +289,7 @@ struct PG<'r> {
 /// Built-ins a workload may focus on (see `PG::focus_expr`).
 pub const FOCUSABLE: &[&str] = &[
     "getFullYear", "getMonth", "getDate", "getDayOfMonth", "getDayOfWeek", "getDayOfYear", "getHours", "getMinutes", "getSeconds", "getMilliseconds",
-    "int", "uint", "double", "string", "bytes", "max", "min", "contains_bytes", "contains_map", "dur_cmp", "ts_cmp", "matches", "startsWith", "endsWith", "timestamp", "duration",
+    "int", "uint", "double", "string", "bytes", "max", "min", "contains_bytes", "contains_map", "dur_cmp", "ts_cmp", "matches", "startsWith", "endsWith", "timestamp", "duration", "var_eq", "var_eq",
 ];
 
 fn lit_int(r: &mut Rng) -> G {
@@ -460,6 +473,18 @@ impl<'r> PG<'r> {
             "startsWith" | "endsWith" => {
                 let recv = self.gen(Ty::Str, d.min(1));
                 (call(f, Some(recv), vec![G::Lit((*self.r.pick(&["'a'", "'b'", "'ab'", "''", "'zz'"])).into())]), Ty::Bool)
+            }
+            "var_eq" => {
+                // comparisons and membership tests between context-held (shared) collections
+                let t = *self.r.pick(&[Ty::ListInt, Ty::ListInt, Ty::ListStr, Ty::ListList, Ty::MapStrInt]);
+                let a = self.gen(t, 0);
+                let b = self.gen(t, 0);
+                match self.r.below(4) {
+                    0 => (G::Bin("!=".into(), Box::new(a), Box::new(b)), Ty::Bool),
+                    1 if t == Ty::ListInt => (G::Bin("in".into(), Box::new(a), Box::new(self.gen(Ty::ListList, 0))), Ty::Bool),
+                    2 if t == Ty::ListInt => (G::Call("contains".into(), Some(Box::new(self.gen(Ty::ListList, 0))), vec![a]), Ty::Bool),
+                    _ => (G::Bin("==".into(), Box::new(a), Box::new(b)), Ty::Bool),
+                }
             }
             "timestamp" => (G::Bin("<".into(), Box::new(self.gen(Ty::Ts, 0)), Box::new(self.gen(Ty::Ts, 0))), Ty::Bool),
             "duration" => (G::Bin("<".into(), Box::new(self.gen(Ty::Dur, 0)), Box::new(self.gen(Ty::Dur, 0))), Ty::Bool),
@@ -1025,7 +1050,8 @@ fn gen_ops(r: &mut Rng, lim: &Limits, n_programs: usize, execs: u64, root_names:
                 };
                 ops.push(Op::Define { name: name.to_string(), src });
             }
-            79..=81 => ops.push(Op::DropRetained(r.usize(8))),
+            79..=80 => ops.push(Op::DropRetained(r.usize(8))),
+            81 => ops.push(Op::MutateRetained(r.usize(8))),
             82..=88 => ops.push(Op::HostAdd(r.usize(8), r.usize(8), r.chance(1, 3))),
             89..=94 => {
                 let name = if r.chance(1, 5) { "zz".to_string() } else { r.pick(NAMES).0.to_string() };
